@@ -6,7 +6,7 @@ reg = json.load(open(os.path.join(ROOT, "theorems.json")))
 props = [json.loads(l) for l in open(os.path.join(ROOT, "properties.jsonl"))]
 hooks = {
     "guard": "cargo feature `verif-hooks` of the snow crate (off by default)",
-    "enable": "harness/Cargo.toml depends on /repo by path with features [verif-hooks, use-p256, use-xchacha20poly1305, ring-resolver]; `./check` rebuilds it with cargo --offline on every run",
+    "enable": "harness/Cargo.toml depends on /repo by path with features [verif-hooks, risky-raw-split] plus, under the harness feature `full` (default), [use-p256, use-xchacha20poly1305, ring-resolver]; `./check` rebuilds both binaries (target/ with `full`, target-min/ with snow's default features only) with cargo --offline on every run",
     "baseline_off_cmd": "cd /repo && cargo test --workspace --no-fail-fast --offline",
     "source_commits": ["fc080ff", "bd1655d"],
     "add_only": True,
